@@ -121,6 +121,9 @@ Notation "x <- m ;; k" := (bindM m (fun x => k))
 Notation "m ;;; k" := (bindM m (fun _ => k))
   (at level 61, right associativity).
 
+Definition failM {A} (k : ub_kind) : M A := fun _ => UB k.
+Definition errM {A} (s : Z) : M A := fun _ => Err s.
+
 Section Alloc.
   Variable f : oracle.
 
@@ -169,6 +172,15 @@ Section Alloc.
     | [] => ret tt
     | b :: r => free (Some b) ;;; free_all r
     end.
+
+  (* a run of ares_free() calls on pointers that may be NULL *)
+  Fixpoint cat_somes (l : list (option blk)) : list blk :=
+    match l with
+    | [] => []
+    | Some b :: r => b :: cat_somes r
+    | None :: r => cat_somes r
+    end.
+  Definition free_opts (l : list (option blk)) : M unit := free_all (cat_somes l).
 End Alloc.
 
 (* ---------------------------------------------------------------------------------- *)
@@ -289,3 +301,195 @@ Proof.
   - unfold bindM, free. rewrite Hl. simpl. rewrite Nat.eqb_refl. simpl.
     rewrite (IH (mkHeap (h_next h) (r ++ rest)) rest); simpl; reflexivity.
 Qed.
+
+(* ---------------------------------------------------------------------------------- *)
+(* heaps without duplicates: set-like reasoning about runs of free()                    *)
+(* ---------------------------------------------------------------------------------- *)
+Definition heap_ok (h : heap) : Prop := NoDup (h_live h) /\ heap_wf h.
+
+Lemma heap0_ok : heap_ok heap0.
+Proof. split; [constructor | apply heap0_wf]. Qed.
+
+Lemma heap_ok_fresh h : heap_ok h -> ~ In (h_next h) (h_live h).
+Proof. intros [_ Hwf] Hin. apply Hwf in Hin. lia. Qed.
+
+Lemma heap_ok_push h : heap_ok h -> heap_ok (mkHeap (S (h_next h)) (h_next h :: h_live h)).
+Proof.
+  intros Hok. pose proof (heap_ok_fresh h Hok) as Hf. destruct Hok as [Hnd Hwf]. split; simpl.
+  - constructor; assumption.
+  - intros b [<-|Hb]; simpl; [lia | apply Hwf in Hb; lia].
+Qed.
+
+Lemma heap_ok_skip h : heap_ok h -> heap_ok (mkHeap (S (h_next h)) (h_live h)).
+Proof. intros [Hnd Hwf]. split; simpl; [assumption|]. intros b Hb. apply Hwf in Hb. simpl. lia. Qed.
+
+(* the two outcomes of one request *)
+Lemma malloc_cases f h :
+  (f (h_next h) = true /\ malloc f h = Ok (Some (h_next h), mkHeap (S (h_next h)) (h_next h :: h_live h))) \/
+  (f (h_next h) = false /\ malloc f h = Ok (None, mkHeap (S (h_next h)) (h_live h))).
+Proof. unfold malloc. destruct (f (h_next h)); [left | right]; auto. Qed.
+
+Lemma In_remove_one_nodup a b l : NoDup l -> (In a (remove_one b l) <-> In a l /\ a <> b).
+Proof.
+  induction l as [|x r IH]; simpl; intros Hnd; [tauto|].
+  inversion Hnd as [|? ? Hx Hr]; subst.
+  destruct (Nat.eqb_spec x b) as [E|E].
+  - subst x. split.
+    + intros Ha. split; [tauto|]. intros ->. contradiction.
+    + intros [[->|Ha] Hne]; [contradiction | assumption].
+  - simpl. rewrite IH by assumption. split.
+    + intros [->|[Ha Hne]]; [split; [tauto | congruence] | tauto].
+    + intros [[->|Ha] Hne]; [left; reflexivity | right; tauto].
+Qed.
+
+Lemma NoDup_remove_one b l : NoDup l -> NoDup (remove_one b l).
+Proof.
+  induction l as [|x r IH]; simpl; intros Hnd; [constructor|].
+  inversion Hnd as [|? ? Hx Hr]; subst.
+  destruct (Nat.eqb_spec x b); [assumption|].
+  constructor; [|apply IH; assumption].
+  intros Hin. apply In_remove_one in Hin. contradiction.
+Qed.
+
+Lemma length_remove_one b l : In b l -> S (length (remove_one b l)) = length l.
+Proof.
+  induction l as [|x r IH]; simpl; intros Hin; [contradiction|].
+  destruct (Nat.eqb_spec x b) as [E|E]; [reflexivity|].
+  simpl. f_equal. apply IH. destruct Hin; [contradiction | assumption].
+Qed.
+
+Lemma free_all_ok bs : forall h,
+  heap_ok h -> NoDup bs -> incl bs (h_live h) ->
+  exists h1, free_all bs h = Ok (tt, h1) /\ heap_ok h1 /\ h_next h1 = h_next h /\
+    length (h_live h1) + length bs = length (h_live h) /\
+    (forall x, In x (h_live h1) <-> In x (h_live h) /\ ~ In x bs).
+Proof.
+  induction bs as [|b r IH]; intros h Hok Hnd Hincl; simpl.
+  - exists h. unfold ret. split; [reflexivity|]. split; [assumption|]. split; [reflexivity|].
+    split; [simpl; lia|]. intros x. simpl. tauto.
+  - inversion Hnd as [|? ? Hb Hr]; subst.
+    assert (Hin : In b (h_live h)) by (apply Hincl; left; reflexivity).
+    unfold bindM, free. rewrite (proj2 (memb_In b (h_live h)) Hin).
+    destruct Hok as [Hnl Hwf].
+    set (h0 := mkHeap (h_next h) (remove_one b (h_live h))).
+    assert (Hok0 : heap_ok h0).
+    { split; simpl; [apply NoDup_remove_one; assumption|].
+      intros x Hx. apply In_remove_one in Hx. apply Hwf. assumption. }
+    assert (Hincl0 : incl r (h_live h0)).
+    { intros x Hx. simpl. apply In_remove_one_nodup; [assumption|]. split.
+      - apply Hincl. right. assumption.
+      - intros ->. contradiction. }
+    destruct (IH h0 Hok0 Hr Hincl0) as (h1 & Hrun & Hok1 & Hnx & Hlen & Hiff).
+    exists h1. split; [exact Hrun|]. split; [exact Hok1|]. split; [exact Hnx|]. split.
+    + simpl in Hlen. pose proof (length_remove_one b (h_live h) Hin). lia.
+    + intros x. rewrite Hiff. simpl. rewrite In_remove_one_nodup by assumption.
+      split; [intros [[Hx Hne] Hnr]; split; [assumption | intros [->|Hx']; [congruence | contradiction]]
+             | intros [Hx Hn]; split; [split; [assumption | intros ->; apply Hn; left; reflexivity]
+                                      | intros Hx'; apply Hn; right; assumption]].
+Qed.
+
+Lemma NoDup_app_inv {A} (a b : list A) :
+  NoDup (a ++ b) -> NoDup a /\ NoDup b /\ (forall x, In x a -> In x b -> False).
+Proof.
+  induction a as [|x a IH]; simpl; intros H.
+  - split; [constructor|]. split; [assumption|]. intros x [].
+  - inversion H as [|? ? Hx Hr]; subst. destruct (IH Hr) as (Ha & Hb & Hd).
+    split; [constructor; [intros Hi; apply Hx; apply in_or_app; left; exact Hi | exact Ha]|].
+    split; [exact Hb|].
+    intros y [<-|Hy] Hyb; [apply Hx; apply in_or_app; right; exact Hyb | eapply Hd; eauto].
+Qed.
+
+Lemma heap_ok_next h n : heap_ok h -> h_next h <= n -> heap_ok (mkHeap n (h_live h)).
+Proof. intros [Hnd Hwf] Hle. split; simpl; [assumption|]. intros b Hb. apply Hwf in Hb. simpl. lia. Qed.
+
+(* resolve the block-name comparisons that symbolic execution of malloc/free leaves behind *)
+Ltac eqb_norm :=
+  repeat match goal with
+  | |- context [Nat.eqb ?a ?a] => rewrite (Nat.eqb_refl a)
+  | |- context [Nat.eqb ?a ?b] =>
+      let H := fresh in
+      assert (H : Nat.eqb a b = false) by (apply Nat.eqb_neq; lia); rewrite H; clear H
+  end.
+
+Lemma bindM_ok {A B} (m : M A) (k : A -> M B) h a h1 : m h = Ok (a, h1) -> bindM m k h = k a h1.
+Proof. intros H. unfold bindM. rewrite H. reflexivity. Qed.
+
+Ltac eqb_norm_in H :=
+  repeat match type of H with
+  | context [Nat.eqb ?a ?a] => rewrite (Nat.eqb_refl a) in H
+  | context [Nat.eqb ?a ?b] =>
+      let H' := fresh in
+      assert (H' : Nat.eqb a b = false) by (apply Nat.eqb_neq; lia); rewrite H' in H; clear H'
+  end.
+
+(* one allocation request inside hypothesis H : R = bindM (malloc f) k h *)
+Ltac step_malloc_in H :=
+  match type of H with
+  | context [bindM (malloc ?f) ?k ?h] =>
+      let E := fresh "Ef" in let M := fresh "Hm" in
+      destruct (malloc_cases f h) as [[E M]|[E M]];
+      rewrite (bindM_ok (malloc f) k h _ _ M) in H; clear M;
+      cbv beta iota in H; cbn [h_next h_live] in H
+  end.
+
+Lemma remove_one_app_in b l1 l2 : In b l1 -> remove_one b (l1 ++ l2) = remove_one b l1 ++ l2.
+Proof.
+  induction l1 as [|x r IH]; simpl; intros H; [contradiction|].
+  destruct (Nat.eqb_spec x b); [reflexivity|].
+  simpl. f_equal. apply IH. destruct H; [contradiction | assumption].
+Qed.
+
+(* freeing, in any order, exactly the blocks that were pushed restores the ledger *)
+Lemma free_all_restore bs : forall pre L n,
+  NoDup bs -> NoDup pre -> incl bs pre -> incl pre bs ->
+  free_all bs (mkHeap n (pre ++ L)) = Ok (tt, mkHeap n L).
+Proof.
+  induction bs as [|b r IH]; intros pre L n Hb Hp Hi1 Hi2; simpl.
+  - destruct pre as [|x pre]; [reflexivity|]. exfalso. apply (Hi2 x). left. reflexivity.
+  - inversion Hb as [|? ? Hnb Hr]; subst.
+    assert (Hin : In b pre) by (apply Hi1; left; reflexivity).
+    unfold bindM, free. cbn [h_live h_next].
+    rewrite (proj2 (memb_In b (pre ++ L))) by (apply in_or_app; left; exact Hin).
+    rewrite remove_one_app_in by exact Hin.
+    apply IH.
+    + exact Hr.
+    + apply NoDup_remove_one. exact Hp.
+    + intros x Hx. apply In_remove_one_nodup; [exact Hp|]. split.
+      * apply Hi1. right. exact Hx.
+      * intros ->. contradiction.
+    + intros x Hx. apply In_remove_one_nodup in Hx; [|exact Hp]. destruct Hx as [Hx Hne].
+      apply Hi2 in Hx. destruct Hx as [->|Hx]; [congruence | exact Hx].
+Qed.
+
+Lemma free_opts_restore l pre L h0 :
+  h_live h0 = pre ++ L -> NoDup (cat_somes l) -> NoDup pre ->
+  incl (cat_somes l) pre -> incl pre (cat_somes l) ->
+  free_opts l h0 = Ok (tt, mkHeap (h_next h0) L).
+Proof.
+  intros Hl H1 H2 H3 H4. unfold free_opts. destruct h0 as [n lv]. simpl in *. subst lv.
+  apply free_all_restore; assumption.
+Qed.
+
+Ltac prefix_of l L :=
+  match l with
+  | L => constr:(@nil nat)
+  | ?x :: ?r => let p := prefix_of r L in constr:(x :: p)
+  end.
+
+Ltac explicit_nodup := repeat (constructor; [simpl; lia|]); constructor.
+Ltac explicit_incl := let x := fresh in let Hx := fresh in intros x Hx; simpl in *; lia.
+
+(* the undo of a failed step: H : R = bindM (free_opts l) k (mkHeap n (b_j :: .. :: b_1 :: L));
+   the blocks freed are exactly the pushed ones *)
+Ltac step_undo_in H L :=
+  match type of H with
+  | context [bindM (free_opts ?l) ?k (mkHeap ?n ?live)] =>
+      let pre := prefix_of live L in
+      let X := fresh in
+      assert (X : free_opts l (mkHeap n live) = Ok (tt, mkHeap n L)) by
+        (apply (free_opts_restore l pre L (mkHeap n live));
+         [reflexivity | cbn [cat_somes]; explicit_nodup | explicit_nodup
+          | cbn [cat_somes]; explicit_incl | cbn [cat_somes]; explicit_incl]);
+      rewrite (bindM_ok (free_opts l) k (mkHeap n live) _ _ X) in H; clear X;
+      cbv beta iota in H
+  end.
